@@ -2,6 +2,7 @@
 import Driver.Ops.C03
 import Driver.Ops.C07
 import Driver.Ops.C17
+import Driver.Ops.C18
 import Driver.Ops.Std
 namespace ZVD
 
@@ -10,6 +11,7 @@ def allOps : OpTable :=
   ++ opsC03
   ++ opsC07
   ++ opsC17
+  ++ opsC18
   ++ opsStd
 
 def dispatch (op : String) (a : Args) : Except String String :=
